@@ -631,6 +631,113 @@ theorem thermo_decode_eq (c : String) (ks : List String) (vs : List V) (fc : Str
           | error e => rfl
           | ok dd => simp [ensure_dict_eq _ hd, Except.map, Nat.add_assoc]
 
+/-! ### `dict(…)` of the decoded blocks: the keys the model produces are strictly increasing, so the dict lists them
+in order, one entry each -/
+
+/-- strictly increasing keys, all at least `t` -/
+def keysOk : Nat → P2.Blocks → Prop
+  | _, [] => True
+  | t, b :: bs => t ≤ b.1 ∧ keysOk (b.1 + 1) bs
+
+theorem keysOk_mono (t t' : Nat) (h : t' ≤ t) (bs : P2.Blocks) (hk : keysOk t bs) : keysOk t' bs := by
+  cases bs with
+  | nil => trivial
+  | cons b bs => exact ⟨by have := hk.1; omega, hk.2⟩
+
+theorem decodeBlocks_keys (sizeOf : Nat → Option Nat) (start n k t : Nat) (r : List UInt8) (bs : P2.Blocks) (r' : List UInt8)
+    (h : P2.decodeBlocks sizeOf start n k t r = .ok (bs, r')) : keysOk t bs := by
+  induction k generalizing t r bs r' with
+  | zero => simp [P2.decodeBlocks] at h; rw [h.1]; trivial
+  | succ k ih =>
+    unfold P2.decodeBlocks at h
+    cases hr : P2.decodeRun sizeOf n start r with
+    | error e => simp [hr] at h
+    | ok v =>
+      obtain ⟨ps1, r1⟩ := v
+      simp only [hr] at h
+      cases hb : P2.decodeBlocks sizeOf start n k (t + 1) r1 with
+      | error e => simp [hb] at h
+      | ok w =>
+        obtain ⟨bs2, r2⟩ := w
+        simp only [hb, Except.ok.injEq, Prod.mk.injEq] at h
+        have h2 := ih (t + 1) r1 bs2 r2 hb
+        rw [← h.1]
+        by_cases hp : ps1.isEmpty
+        · simp only [hp, if_true]; exact keysOk_mono _ _ (by omega) _ h2
+        · simp only [hp]; exact ⟨Nat.le_refl _, h2⟩
+
+theorem mapSet_fresh (ks vs : List V) (k : Nat) (v : V) (hlen : ks.length = vs.length)
+    (hk : ∀ x ∈ ks, ∃ j : Nat, x = .int (j : Int) ∧ j < k) :
+    Py.mapSet ks vs (.int (k : Int)) v = .ok (ks ++ [.int (k : Int)], vs ++ [v]) := by
+  induction ks generalizing vs with
+  | nil => cases vs <;> simp_all [Py.mapSet]
+  | cons x ks ih =>
+    cases vs with
+    | nil => simp at hlen
+    | cons y vs =>
+      obtain ⟨j, rfl, hj⟩ := hk x (by simp)
+      have hne : ((j : Int) == (k : Int)) = false := by simp; omega
+      have := ih vs (by simpa using hlen) (fun x hx => hk x (by simp [hx]))
+      simp [Py.mapSet, Py.eqB, asInt?, hne, this]
+
+theorem fold_blocks (bs : P2.Blocks) (t : Nat) (h : keysOk t bs) (ks vs : List V) (hlen : ks.length = vs.length)
+    (hk : ∀ x ∈ ks, ∃ j : Nat, x = .int (j : Int) ∧ j < t) :
+    (blocksV bs).foldlM Py.dictStep (ks, vs)
+      = .ok (ks ++ bs.map (fun b => V.int (b.1 : Int)), vs ++ bs.map (fun b => V.list (paramsV b.2))) := by
+  induction bs generalizing t ks vs with
+  | nil => simp [blocksV]
+  | cons b bs ih =>
+    obtain ⟨h1, h2⟩ := h
+    have hk' : ∀ x ∈ ks, ∃ j : Nat, x = .int (j : Int) ∧ j < b.1 := by
+      intro x hx; obtain ⟨j, e, hj⟩ := hk x hx; exact ⟨j, e, by omega⟩
+    simp only [blocksV, List.map_cons, List.foldlM_cons, Py.dictStep, mapSet_fresh ks vs b.1 _ hlen hk', ok_bind]
+    have := ih (b.1 + 1) h2 (ks ++ [.int (b.1 : Int)]) (vs ++ [.list (paramsV b.2)]) (by simp [hlen])
+      (by
+        intro x hx
+        rcases List.mem_append.mp hx with hx | hx
+        · obtain ⟨j, e, hj⟩ := hk' x hx; exact ⟨j, e, by omega⟩
+        · simp at hx; exact ⟨b.1, hx, by omega⟩)
+    simpa [blocksV] using this
+
+/-- the dict `dict(self._mixer_parameters(…))` / `dict(self._thermostat_parameters(…))` builds -/
+def blocksDictV : P2.Blocks → V
+  | [] => .dict [] []
+  | b :: bs => .map ((b :: bs).map fun b => V.int (b.1 : Int)) ((b :: bs).map fun b => V.list (paramsV b.2))
+
+theorem dict_blocks (bs : P2.Blocks) (t : Nat) (h : keysOk t bs) :
+    Py.dict_ (.list (blocksV bs)) = .ok (blocksDictV bs) := by
+  have hf := fold_blocks bs t h [] [] rfl (by simp)
+  unfold Py.dict_
+  simp only [Py.iter, pure_eq_ok, ok_bind, hf, List.nil_append]
+  cases bs with
+  | nil => rfl
+  | cons b bs => rfl
+
+/-- the `Py.dict_ …` left in `mixer_decode_eq` always succeeds, with the blocks in order -/
+theorem mixer_dict (m : List UInt8) (bs : P2.Blocks) (r : List UInt8) (h : P2.decodeMixer m = .ok (bs, r)) :
+    Py.dict_ (.list (blocksV bs)) = .ok (blocksDictV bs) := by
+  match m, h with
+  | _ :: s :: c :: k :: r0, h => exact dict_blocks bs 0 (decodeBlocks_keys _ _ _ _ _ _ _ _ h)
+
+/-- the `Py.dict_ …` left in `thermo_decode_eq` always succeeds, with the blocks in order -/
+theorem thermo_dict (th : Option Nat) (m : List UInt8) (p : Option P2.Triple) (bs : P2.Blocks) (r : List UInt8)
+    (h : P2.decodeThermo th m = .ok (.val p bs, r)) :
+    Py.dict_ (.list (blocksV bs)) = .ok (blocksDictV bs) := by
+  unfold P2.decodeThermo at h
+  split at h
+  · simp at h
+  · split at h
+    · split at h
+      · simp at h
+      · rename_i T
+        split at h
+        · simp at h
+        · rename_i bs' r' hb
+          simp only [Except.ok.injEq, Prod.mk.injEq, P2.ThermoVal.val.injEq] at h
+          rw [← h.1.2]
+          exact dict_blocks bs' 0 (decodeBlocks_keys _ _ _ _ _ _ _ _ hb)
+    · simp at h
+
 /-! ### non-vacuity -/
 
 /-- two slots from index 5, the second one a hole -/
